@@ -37,6 +37,9 @@ pub enum IdEv {
     Data(usize),
     Elem(usize),
     Type(usize),
+    /// a nested instruction sequence named by block / loop / if-else (branch
+    /// targets are documented as not visited)
+    Seq(usize),
 }
 
 #[derive(Clone, Debug, PartialEq, Eq)]
@@ -61,6 +64,9 @@ fn instr_key(i: &Instr) -> String {
 pub fn ids_of(i: &Instr) -> Vec<IdEv> {
     use IdEv::*;
     match i {
+        Instr::Block(b) => vec![Seq(b.seq.index())],
+        Instr::Loop(l) => vec![Seq(l.seq.index())],
+        Instr::IfElse(ie) => vec![Seq(ie.consequent.index()), Seq(ie.alternative.index())],
         Instr::Call(c) => vec![Func(c.func.index())],
         Instr::CallIndirect(c) => vec![Type(c.ty.index()), Table(c.table.index())],
         Instr::LocalGet(l) => vec![Local(l.local.index())],
@@ -203,6 +209,9 @@ impl<'a> Visitor<'a> for RecDefault {
     fn visit_element_id(&mut self, x: &ElementId) {
         self.ev.push(Ev::Id(IdEv::Elem(x.index())));
     }
+    fn visit_instr_seq_id(&mut self, x: &InstrSeqId) {
+        self.ev.push(Ev::Id(IdEv::Seq(x.index())));
+    }
 }
 
 /// same, but a number of per-instruction hooks are overridden (so their
@@ -228,7 +237,8 @@ impl<'a> Visitor<'a> for RecOverride {
         self.inner.visit_instr(i, l)
     }
     fwd!(visit_local_id: LocalId, visit_memory_id: MemoryId, visit_table_id: TableId, visit_global_id: GlobalId,
-         visit_function_id: FunctionId, visit_data_id: DataId, visit_type_id: TypeId, visit_element_id: ElementId);
+         visit_function_id: FunctionId, visit_data_id: DataId, visit_type_id: TypeId, visit_element_id: ElementId,
+         visit_instr_seq_id: InstrSeqId);
     fn visit_call(&mut self, _: &Call) {
         self.hooks += 1;
     }
@@ -302,6 +312,9 @@ impl VisitorMut for RecMutDefault {
     fn visit_element_id_mut(&mut self, x: &mut ElementId) {
         self.ev.push(Ev::Id(IdEv::Elem(x.index())));
     }
+    fn visit_instr_seq_id_mut(&mut self, x: &mut InstrSeqId) {
+        self.ev.push(Ev::Id(IdEv::Seq(x.index())));
+    }
 }
 
 #[derive(Default)]
@@ -325,7 +338,7 @@ impl VisitorMut for RecMutOverride {
     }
     fwd_mut!(visit_local_id_mut: LocalId, visit_memory_id_mut: MemoryId, visit_table_id_mut: TableId,
              visit_global_id_mut: GlobalId, visit_function_id_mut: FunctionId, visit_data_id_mut: DataId,
-             visit_type_id_mut: TypeId, visit_element_id_mut: ElementId);
+             visit_type_id_mut: TypeId, visit_element_id_mut: ElementId, visit_instr_seq_id_mut: InstrSeqId);
     fn visit_call_mut(&mut self, _: &mut Call) {}
     fn visit_local_get_mut(&mut self, _: &mut LocalGet) {}
     fn visit_local_set_mut(&mut self, _: &mut LocalSet) {}
